@@ -31,6 +31,7 @@ import DfolsVerif.Kernels.TrStepRule
 import DfolsVerif.Proofs.TrsConvexBall
 import Mathlib.Analysis.Real.Sqrt
 import DfolsVerif.Gen.TrProj
+import DfolsVerif.Gen.TrsClip
 
 namespace Dfols
 namespace C13
@@ -251,6 +252,13 @@ theorem gen_trproj_last : Gen.trprojPlacement =
      ("ctrsbox_pgd", ["trproj = lambda w: pball(w, xopt, delta)", "P = list(projections)", "P.append(trproj)"]),
      ("ctrsbox_linear", ["trproj = lambda w: pball(w, xbase, Delta)", "P = list(projections)", "P.append(trproj)"])] := by
   decide +kernel
+
+/-- **layer G: `ball_step` translated from trust_region.py on every run is the `ballStep` of the port** the
+    `trsbox_linear_*` / `trsbox_geometry_*` theorems are about (any numeric record: the three dot products, the
+    `sqrt(gsqnorm) < ZERO_THRESH` guard returning 0, and the `max(0, ·)` under the square root). -/
+theorem gen_ballStep_eq {α : Type} [OfNat α 0] [Add α] [Sub α] [Mul α] [Div α] [Neg α] [LT α] [LE α]
+    [DecidableLT α] [DecidableLE α] (N : TrsLin.Num α) (n : Nat) (x0 g : Nat → α) (Delta : α) :
+    Gen.ballStepSrc N n x0 g Delta = TrsLin.ballStep N n x0 g Delta := rfl
 
 end C13
 end Dfols
